@@ -135,14 +135,17 @@ def structural(tier, res):
                 # audited dispatch pattern:  method = f'_eval_{type(node).__name__}';  getattr(self, method)(node)
                 ok = _dispatch_pattern(n, '_eval_')
                 out.append(frames.Clause(q + '#dispatch_closed', ok, "evaluate() resolves only '_eval_' + type(node).__name__" if ok else
-                                         'dispatch is not the audited pattern'))
-                allowed_names |= {'hasattr', 'getattr'}
-                computed_ok = True
+                                         'dispatch is not the audited pattern', kind='auxiliary'))
+                if ok:
+                    # only the audited pattern may use getattr: otherwise getattr is an escaping construct of the calls clause (property)
+                    allowed_names |= {'hasattr', 'getattr'}
+                computed_ok = ok
             if n.name == 'get_function' and cname == 'TransactionContext':
                 ok = _get_function_pattern(n, cnode)
                 out.append(frames.Clause(q + '#dispatch_closed', ok, "get_function() resolves only abs, round and '_fn_' + name for name in the literal _FUNCTION_NAMES"
-                                         if ok else 'get_function is not the audited pattern'))
-                allowed_names |= {'getattr'}
+                                         if ok else 'get_function is not the audited pattern', kind='auxiliary'))
+                if ok:
+                    allowed_names |= {'getattr'}
             if n.name == '__init__':
                 allowed_names |= {'weekday'}
             if n.name in ('_eval_Attribute',) and cname == 'TransactionEvaluator':
@@ -166,7 +169,7 @@ def structural(tier, res):
                         c.ok = not rest
                         c.detail = '; '.join(rest) if rest else 'all calls resolve inside the closed table'
                 ok = _func_from_get_function(n)
-                out.append(frames.Clause(q + '#callee_from_get_function', ok, 'func is bound only from self.ctx.get_function(...)' if ok else 'func may come from elsewhere'))
+                out.append(frames.Clause(q + '#callee_from_get_function', ok, 'func is bound only from self.ctx.get_function(...)' if ok else 'func may come from elsewhere', kind='auxiliary'))
             out.extend(cl)
             al = []
             if cname == 'TransactionEvaluator':
